@@ -157,14 +157,64 @@ def worker(kp, job):
     return {'records': records}
 
 
+def long_worker(kp, job):
+    """a LONG score (well over a thousand lines: the tree has one level per line) - every query still answers, the comment
+    query returns all the !! lines in order, the listing has one token per cell and comment line"""
+    seed, idx = job
+    rng = random.Random(seed * 715225739 + idx)
+    nrows = rng.randint(1150, 1400)
+    lines = ['!!!COM: long score', '**kern\t**text', '*clefG2\t*', '*M4/4\t*']
+    notes = ['4c', '4d', '8e', '2f', '4g', '4a', '4b', '4cc']
+    m = 1
+    for k in range(nrows):
+        if k % 4 == 0:
+            lines.append(f'={m}\t={m}')
+            m += 1
+        if k % 97 == 5:
+            lines.append(f'!!!section: part {k}')
+        if k % 211 == 7:
+            lines.append('!! ---')
+        lines.append(rng.choice(notes) + '\t' + rng.choice(['la', 'li', '.', 'lo']))
+    lines += ['==\t==', '*-\t*-', '!!!END: done']
+    text = '\n'.join(lines) + '\n'
+    viol = []
+    w = {'text_lines': len(lines), 'first_lines': lines[:6]}
+    try:
+        doc, errs = kp.loads(text)
+        metas = [l for l in lines if l.startswith('!!')]
+        cells = sum(len(l.split('\t')) for l in lines if not l.startswith('!!'))
+        got = doc.get_metacomments()
+        if got != metas:
+            viol.append(('metacomments', f'long score ({len(lines)} lines): get_metacomments returns {len(got)} lines, the text has {len(metas)}', w))
+        if doc.get_metacomments('section') != [x for x in metas if x.startswith('!!!section')]:
+            viol.append(('metacomments-key', f'long score ({len(lines)} lines): keyed comment query differs from the text', w))
+        allt = doc.get_all_tokens()
+        if len(allt) != cells + len(metas):
+            viol.append(('listing-size', f'long score ({len(lines)} lines): get_all_tokens lists {len(allt)} tokens for {cells + len(metas)} cells and comment lines', w))
+        fr = doc.frequencies()
+        if sum(v['occurrences'] for v in fr.values()) != len(allt):
+            viol.append(('frequencies', f'long score ({len(lines)} lines): frequency counts do not sum to the listing', w))
+        uni = doc.get_unique_tokens()
+        if len({t.encoding for t in uni}) != len(uni) or {t.encoding for t in uni} != {t.encoding for t in allt}:
+            viol.append(('unique-first', f'long score ({len(lines)} lines): unique listing inconsistent with the listing', w))
+        if kp.is_monophonic(doc) is not True:
+            viol.append(('monophonic', 'long score: is_monophonic is not True for one **kern spine without chords', w))
+    except BaseException as e:
+        if e.__class__.__name__ == 'JobTimeout':
+            raise
+        viol.append(('query-raises', f'long score ({len(lines)} lines): {type(e).__name__} raised by a query', w))
+    return {'records': [engine.rec('long', viol=viol[:2], kind='long-score', key=('long', idx, len(lines)))]}
+
+
 def run(chk):
     b = core.standard_build(chk)
     model = core.Model() if b.modelrun_ok else None
     full = chk.tier == 'thorough' or bool(b.drift) or not b.proof_ok or not b.modelrun_ok
     n = core.budget(chk, full, 70, 500)
     chk.rule = ('generated documents (1-4 spines, splits and joins, global comments before / inside / after the spines) x '
-                '11 category filters (none, the empty list, singles, random sets) x comment keys; non-trivial = distinct (text, filter, key)')
-    results = engine.pmap(worker, [(chk.seed, i) for i in range(n)])
+                '11 category filters (none, the empty list, singles, random sets), plus long scores of 1200-1500 lines (queries on kernpy alone) x comment keys; non-trivial = distinct (text, filter, key)')
+    results = engine.pmap(worker, [(chk.seed, i) for i in range(n)] )
+    results += engine.pmap(long_worker, [(chk.seed, i) for i in range(2 if not full else 6)], nproc=6)
     engine.settle(chk, results, model)
     chk.disagreements_checked = len(chk.broken)
 
